@@ -213,8 +213,9 @@ func c03R4(p *core.Prog, r *core.Report) {
 	// the callback literal: the function literal returned
 	var cb *ssa.Function
 	for _, ret := range core.Returns(fn) {
-		if lit := closureOf(core.ReturnOperand(ret, 0)); lit != nil {
-			cb = lit
+		// a literal, or a method value of the entry (resolved through the bound-method wrapper)
+		for _, f := range hookFuncs(p, core.ReturnOperand(ret, 0), 0) {
+			cb = f
 		}
 	}
 	if cb == nil {
